@@ -15,7 +15,8 @@ Record obs := mkObs {
   o_digests : list term;           (* canonical StateDelta digests: Validate + every repeated Eval *)
   o_errs : list N;                 (* 0 = that evaluation succeeded *)
   o_red : list term;               (* generator's vs validator's delta without fee sink / proposer *)
-  o_muts : list (bool * bool)      (* (applicable, rejected) per mutated generate-computed field *)
+  o_muts : list (bool * bool);     (* (applicable, rejected) per mutated generate-computed field *)
+  o_ps : list N                    (* the generated header against its own payset, see [hdr_of_payset_ok] *)
 }.
 
 Fixpoint all_eq (x : term) (l : list term) : bool :=
@@ -31,10 +32,28 @@ Definition mut_ok (m : bool * bool) : bool := negb (fst m) || snd m.
    /\ (every repeated evaluation succeeded and produced the same canonical delta, and the
        validator's delta equals the generator's outside fee sink / proposer)
    /\ (every applicable mutant was rejected) *)
+(* The generated header read against the generated payset alone ([lt maxb bytes load tc prev ntx
+   counter po feesum fees]: LoadTracking, protocol MaxTxnBytesPerBlock, sum of the encoded
+   lengths of the block's transactions, header Load; TxnCounter flag, previous counter, number of
+   transactions (no inner transactions in these pools), header TxnCounter; Payouts.Enabled, sum of
+   the fees of the block's transactions not sent by the fee sink, header FeesCollected):
+   Load = ComputeLoad(bytes), TxnCounter = previous + count, FeesCollected = sum -- no trace of
+   groups that were tried and dropped. *)
+Definition hdr_of_payset_ok (l : list N) : bool :=
+  match l with
+  | [lt; maxb; bytes; load; tc; prev; ntx; counter; po; feesum; fees] =>
+    (if lt =? 0 then load =? 0
+     else negb (maxb =? 0) && (load =? N.min (1000000 * bytes / maxb) 1000000)) &&
+    (counter =? (if tc =? 0 then 0 else (prev + ntx) mod 18446744073709551616)) &&
+    (fees =? (if po =? 0 then 0 else feesum mod 18446744073709551616))
+  | [] => true          (* no block was generated: [o_gen_ok] is false *)
+  | _ => false
+  end.
+
 Definition spec_ok (o : obs) : bool :=
   o_gen_ok o && o_val_ok o &&
   forallb (N.eqb 0) (o_errs o) && all_same (o_digests o) && all_same (o_red o) &&
-  forallb mut_ok (o_muts o).
+  forallb mut_ok (o_muts o) && hdr_of_payset_ok (o_ps o).
 
 (* ------------------------------------------------------------------ decoding *)
 Definition nth_t (l : list term) (n : nat) : term := nth n l (TL []).
@@ -95,11 +114,11 @@ Definition as_mut (t : term) : option (bool * bool) :=
   | _ => None
   end.
 
-Definition as_obs (gen val digests errs red mut : term) : option obs :=
+Definition as_obs (gen val digests errs red mut pschk : term) : option obs :=
   match as_bool (nth_t (tagged gen) 0), as_bool (nth_t (tagged val) 0),
-        map_opt as_N (tagged errs), map_opt as_mut (tagged mut) with
-  | Some g, Some v, Some e, Some m => Some (mkObs g v (tagged digests) e (tagged red) m)
-  | _, _, _, _ => None
+        map_opt as_N (tagged errs), map_opt as_mut (tagged mut), map_opt as_N (tagged pschk) with
+  | Some g, Some v, Some e, Some m, Some ps => Some (mkObs g v (tagged digests) e (tagged red) m ps)
+  | _, _, _, _, _ => None
   end.
 
 (* ------------------------------------------------------------------ rendering the model's results *)
@@ -121,14 +140,17 @@ Definition t_accept (codes : list N) : term := TL (map (fun c => tb (c =? 0)) co
 (* the model's account of one case: which groups are accepted, the generated header fields,
    payset with ApplyData, generator's delta, finished proposer / payout, validator's verdict and
    delta *)
-Definition model_obs (P : params) (L : lview) (rnd bonus : N) (pool : list group) (parts : list N)
+Definition model_obs (P : params) (L : lview) (cap : N) (stopfull : bool) (rnd bonus : N) (pool0 : list group) (parts : list N)
            (proposer : N) (elig : bool) : term :=
-  let E := mkEnv P true true rnd in
+  let E := mkEnv P true true rnd (eff_cap P cap) in
   match start E L (hdr_template rnd bonus) with
   | Err e => TL [TS "start_failed"; tn e]
   | Ok (_, l0) =>
+    (* the pool stops offering groups at the first one that does not fit *)
+    let pool := if stopfull then pool_until_full E L (mkEv l0 [] 0) pool0 else pool0 in
     let codes := gen_codes E L (mkEv l0 [] 0) pool in
-    match eval_generate P L rnd bonus pool parts with
+    match (if stopfull then eval_generate_full P cap L rnd bonus pool0 parts
+           else eval_generate_cap P cap L rnd bonus pool0 parts) with
     | Err e => TL [TS "generate_failed"; tn e]
     | Ok ub =>
       let h := ub_hdr ub in
@@ -175,9 +197,9 @@ Definition count_true (l : list (bool * bool)) : nat := List.length (filter fst 
 
 Definition check (t : term) : term :=
   match t with
-  | TL [TS _; modelled; params; lv; rnd; bonus; pool; parts; proposer; elig;
-        codes; gen; fin; val; digests; errs; red; mut; info] =>
-    match as_obs gen val digests errs red mut, as_bool modelled with
+  | TL [TS _; modelled; params; lv; rnd; bonus; pool; parts; proposer; elig; cap; stopfull;
+        codes; gen; fin; val; digests; errs; red; mut; info; pschk] =>
+    match as_obs gen val digests errs red mut pschk, as_bool modelled with
     | Some o, Some m =>
       let nontrivial :=
         match map_opt as_N (tagged info) with
@@ -186,13 +208,14 @@ Definition check (t : term) : term :=
         end in
       if negb m then verdict (spec_ok o) true nontrivial (TL [TS "runtime_only"])
       else
-        match as_params params, as_lview lv, as_N rnd, as_N bonus, as_pool pool, as_N_list parts, as_N proposer, as_bool elig with
-        | Some P, Some L, Some r, Some b, Some pl, Some ps, Some pr, Some el =>
-          let mo := model_obs P L r b pl ps pr el in
+        match as_params params, as_lview lv, as_N rnd, as_N bonus, as_pool pool, as_N_list parts, as_N proposer, as_bool elig,
+              as_N cap, as_bool stopfull with
+        | Some P, Some L, Some r, Some b, Some pl, Some ps, Some pr, Some el, Some cp, Some sf =>
+          let mo := model_obs P L cp sf r b pl ps pr el in
           let io := impl_obs codes gen fin val in
           let corr := term_eqb (drop_last mo) io && root_flag gen in
           verdict (spec_ok o) corr nontrivial mo
-        | _, _, _, _, _, _, _, _ => v_parse
+        | _, _, _, _, _, _, _, _, _, _ => v_parse
         end
     | _, _ => v_parse
     end
